@@ -72,6 +72,7 @@ pub fn region_pred(name: &str, cell: &crate::families::Cell) -> bool {
             let q = p[0].min(1.0 - p[0]);
             cell.ip[0] >= (1u64 << 53) && q > 0.0 && (n * q).sqrt() < 4096.0 * n * 2f64.powi(-52)
         }
+        "dirichlet_all_alpha_le_0.1" => !p.is_empty() && p.iter().all(|&a| a <= if cell.ft == Ft::F32 { 0.1f32 as f64 } else { 0.1 }),
         "poisson_lambda_ge_4e18" => !p.is_empty() && p[0] >= 4e18,
         // Dirichlet<f32> on the gamma path (some alpha > 0.1) with every alpha below 0.2
         "dirichlet_f32_gamma_path_small_alpha" => {
